@@ -243,8 +243,9 @@ structure St where
   /-- ghost: some function-like expansion so far had a replacement list / argument combination outside
       `NoPlacemarkerChain` (the region of known finding C09-placemarker).  Never read by the expander. -/
   pmHit : Bool := false
-  /-- ghost: some function-like expansion stringized an argument outside `StringizeLiteralSafe`
-      (the region of known finding C09-stringize-backslash-outside-literal).  Never read by the expander. -/
+  /-- ghost: some function-like expansion stringized an argument outside `StringizeLiteralSafe` (a `\` or `"` outside
+      a literal: the only arguments for which the result of `#` may fail to be a valid string literal, 6.10.3.2p2;
+      formerly the region of the repaired finding C09-stringize-backslash-outside-literal).  Never read by the expander. -/
   bsHit : Bool := false
   deriving Repr
 
@@ -393,8 +394,9 @@ def NoPlacemarkerChain (body : List Tok) (args : List MacroArg) : Prop := hasPla
 instance (body : List Tok) (args : List MacroArg) : Decidable (NoPlacemarkerChain body args) := by
   unfold NoPlacemarkerChain; infer_instance
 
-/-- `quote_string` escaping is what C11 6.10.3.2p2 asks for on this token: it is a string literal or a character
-    constant, or it contains neither `\` nor `"` -/
+/-- the token is a string literal or a character constant, or it contains neither `\` nor `"`: stringizing such tokens
+    always gives a valid string literal (before `fix:` 6fecbd6: exactly the tokens on which `quote_string`'s escaping of
+    every `\` and `"` was what C11 6.10.3.2p2 asks for) -/
 def strSafeTok (t : Tok) : Bool :=
   t.kind == .str || t.kind == .other || !(t.text.toList.any fun c => c == '\\' || c == '"')
 
@@ -406,7 +408,8 @@ def hasUnsafeStringize (args : List MacroArg) : List Tok → Bool
      | p :: _ => h.text == "#" && (match findArg args (some p) with | some a => !(a.toks.all strSafeTok) | none => false)
      | _ => false) || hasUnsafeStringize args tl
 
-/-- **the region outside known finding C09-stringize-backslash-outside-literal** -/
+/-- every stringized argument is literal-safe (was: the region outside the repaired finding
+    C09-stringize-backslash-outside-literal; now: where `#` cannot produce an invalid string literal) -/
 def StringizeLiteralSafe (body : List Tok) (args : List MacroArg) : Prop := hasUnsafeStringize args body = false
 
 instance (body : List Tok) (args : List MacroArg) : Decidable (StringizeLiteralSafe body args) := by
@@ -423,9 +426,30 @@ def joinTokens : List Tok → String
 def quoteString (s : String) : String :=
   String.ofList ('"' :: (s.toList.flatMap fun c => if c == '\\' || c == '"' then ['\\', c] else [c]) ++ ['"'])
 
-/-- `stringize(hash, arg)` followed by the two flag assignments of the `#` arm of `subst` -/
+/-- the inner loop `for (int i = 0; i < t->len; i++)` of `stringize`: the spelling of one token is copied character by
+    character; `lit` is `t->kind == TK_STR || t->kind == TK_NUM` (a string literal or — the only `TK_NUM` tokens there are
+    while the preprocessor runs — a character constant), and only then a `\` is put in front of every `\` and `"` -/
+def strzCopy (lit : Bool) : List Char → List Char
+  | [] => []
+  | c :: r => if lit && (c == '\\' || c == '"') then '\\' :: c :: strzCopy lit r else c :: strzCopy lit r
+
+/-- the outer loop `for (Token *t = arg; t->kind != TK_EOF; t = t->next)` of `stringize`; `first` is `t == arg`:
+    one space before every token but the first that has `has_space` or `at_bol`, then the copy of its spelling -/
+def strzLoop : Bool → List Tok → List Char
+  | _, [] => []
+  | first, t :: ts =>
+    (if !first && (t.hasSpace || t.atBol) then [' '] else []) ++
+      (strzCopy (t.kind == .str || t.kind == .other) t.text.toList ++ strzLoop false ts)
+
+/-- `stringize(hash, arg)` (after `fix:` 6fecbd6: the literal is built by `stringize` itself, no longer by
+    `quote_string(join_tokens(arg))`) followed by the two flag assignments of the `#` arm of `subst`.
+    The C function hands the buffer `"`…`"` to `tokenize()` and returns the first token; the model returns the buffer as
+    one string token.  The two agree whenever the buffer is exactly one string literal, which can fail only if a token
+    of the argument has a `\` or `"` outside a string literal / character constant (`Props.C09.C09_stringize_wellformed`);
+    C11 6.10.3.2p2 leaves the behaviour undefined then, and the check does not compare those runs. -/
 def stringize (hash : Tok) (arg : List Tok) : Tok :=
-  { kind := .str, text := quoteString (joinTokens arg), hasSpace := hash.hasSpace, atBol := hash.atBol, line := hash.line }
+  { kind := .str, text := String.ofList ('"' :: (strzLoop true arg ++ ['"'])), hasSpace := hash.hasSpace, atBol := hash.atBol,
+    line := hash.line }
 
 /-- `paste(lhs, rhs)` -/
 def paste (lx : String → LexOne) (lhs rhs : Tok) : Except Err Tok :=
